@@ -284,7 +284,7 @@ def _alarm(signum, frame):
 def innermost_repo_frame(tb):
     fr = None
     for f in traceback.extract_tb(tb):
-        if "/repo/aquacrop/" in f.filename:
+        if "/aquacrop/" in f.filename and "site-packages" not in f.filename:
             fr = f
     return fr
 
